@@ -398,8 +398,8 @@ def c10_env(b):
 
 def c10_plan(tier, seed):
     q = tier == "quick"
-    out = jobs("os-debug", "c10", 13 if q else 32, c10_env, {"cases": 80 if q else 500}, timeout=3000)
-    out += jobs("inproc-debug", "c10", 3 if q else 8, None, {"cases": 80 if q else 500}, timeout=3000)
+    out = jobs("os-debug", "c10", 13 if q else 32, c10_env, {"cases": 80 if q else 500}, timeout=600 if q else 3000)
+    out += jobs("inproc-debug", "c10", 3 if q else 8, None, {"cases": 80 if q else 500}, timeout=600 if q else 3000)
     return out
 
 
